@@ -48,6 +48,9 @@ use super::srvchk::now_secs;
 
 type Cat = HashMapTreeCatalog<HashMapTreeZone, ()>;
 
+#[path = "c30s.rs"]
+pub mod slow;
+
 #[derive(Clone, Debug, Serialize, Deserialize, PartialEq, Eq, Hash)]
 pub enum Item {
     Req(ReqSpec),
@@ -950,6 +953,10 @@ pub fn run(ctx: &Ctx, report: &mut Report) {
     // requests of 508 ... 65,535 octets at the lengths where receive buffers are sized or grown
     run_prop(ctx, report, PropSpec { name: "io-large-requests", cases: ctx.tier.pick(2500, 60_000), max_shrink_iters: 120 }, large_request_case, oracle);
     stop_all_providers();
+    // slow clients: requests that take seconds to arrive, each within the read timeout (mostly sleeping: 32 at a time)
+    let slow_ctx = Ctx { id: ctx.id.clone(), tier: ctx.tier, seed: ctx.seed, shards: 32 };
+    run_prop(&slow_ctx, report, PropSpec { name: "io-slow-clients", cases: ctx.tier.pick(64, 960), max_shrink_iters: 8 }, slow::slow_case, slow::oracle_slow);
+    slow::stop_shared_providers();
     // back-pressure: hundreds of pipelined requests with large responses, client not reading
     // for a while (see c30bp.rs); a handful of fixed-size cases per provider
     let sub = Ctx { id: ctx.id.clone(), tier: ctx.tier, seed: ctx.seed, shards: 2 };
@@ -963,6 +970,11 @@ pub fn run(ctx: &Ctx, report: &mut Report) {
 }
 
 pub fn replay(check: &str, case: &serde_json::Value) -> Verdict {
+    if check == "io-slow-clients" {
+        let v = replay_case::<slow::SlowCase, _>(case, slow::oracle_slow);
+        slow::stop_shared_providers();
+        return v;
+    }
     if check == "io-backpressure" {
         return replay_case::<super::c30bp::BpCase, _>(case, super::c30bp::oracle);
     }
